@@ -497,12 +497,17 @@ pub fn run(tier: &str, c10: bool) -> i32 {
         retry_evals = a3.iter().map(|a| a.evals).sum();
     }
     // LZ-code-buffer edge family (lazy levels)
-    if !c10 {
+    {
         let fam = corpus::lzbuf_edge_inputs(th);
-        let lv: Vec<u8> = if th { vec![4, 5, 6, 7, 8, 9, 10] } else { vec![4, 6, 9] };
+        let lv: Vec<u8> = if th { vec![4, 5, 6, 7, 8, 9, 10] } else { vec![4, 9] };
+        let cf: Vec<Cfg> = cfgs_all.iter().filter(|c| c.wbits == 15 && c.ctor == 0 && !c.zlib && c.strat == 0 && (c.level == 6 || (th && c.level == 9))).cloned().collect();
         let a4 = par_for(fam.len(), Acc::new, |i, acc| {
             watchdog::tick(3_000_000 + i as u64, 0);
-            c01_case(&fam[i], &lv, acc, &rep, false);
+            if c10 {
+                c10_case(&fam[i], &cf, acc, &rep, false);
+            } else {
+                c01_case(&fam[i], &lv, acc, &rep, false);
+            }
         });
         retry_evals += a4.iter().map(|a| a.evals).sum::<u64>();
     }
@@ -536,9 +541,14 @@ pub fn run(tier: &str, c10: bool) -> i32 {
     {
         let fam = corpus::window_edge_stale_slot_inputs();
         let lv: Vec<u8> = vec![2, 4, 6, 9];
+        let cf: Vec<Cfg> = cfgs_all.iter().filter(|c| c.wbits == 15 && c.ctor == 0 && !c.zlib && c.strat == 0 && [2u8, 6, 9].contains(&c.level)).cloned().collect();
         let a8 = par_for(fam.len(), Acc::new, |i, acc| {
             watchdog::tick(7_000_000 + i as u64, 0);
-            c01_case(&fam[i], &lv, acc, &rep, c10);
+            if c10 {
+                c10_case(&fam[i], &cf, acc, &rep, false);
+            } else {
+                c01_case(&fam[i], &lv, acc, &rep, false);
+            }
         });
         retry_evals += a8.iter().map(|a| a.evals).sum::<u64>();
     }
